@@ -1,9 +1,11 @@
 import Crv.Proofs.Repo
+import Crv.Proofs.Skeleton
 /-!
 C10 — CDP strictness, over every history of the repository model (serve / handshake / refresh tick /
-provision / restart / shutdown in any order and number) and every enumeration order of the repository map.
-"In force" = loaded, open entry whose store is a complete image of a document accepted under the configured
-signature policy (`Accepted`, from the invariant `inv_run`).
+provision / restart / restart with another signature mode / shutdown in any order and number) and every
+enumeration order of the repository map.
+"In force" = loaded, open entry whose store is a complete image of a document accepted under the signature
+policy configured at its intake (`Accepted`, from the invariant `inv_run`; `accepted_at_intake`).
 -/
 namespace Crv.Props.C10
 open Crv Crv.Repo Crv.Generated
@@ -16,7 +18,7 @@ theorem strict_accept_implies_in_force (cfg : Cfg) (ops : List Op) (hstrict : cf
     (hacc : isRevoked (run cfg ops) order c = .notRevoked) :
     ∃ e d, lookup (run cfg ops).entries loc = some e ∧ e.loaded = true ∧ e.closed = false ∧
       e.store.doc = some d ∧ Accepted (run cfg ops) loc d := by
-  have hcfg := cfg_run cfg ops
+  have hcfg := strict_run cfg ops
   have hinv := inv_run cfg ops
   unfold isRevoked at hacc
   rw [hcdp] at hacc
@@ -33,8 +35,8 @@ theorem strict_accept_implies_in_force (cfg : Cfg) (ops : List Op) (hstrict : cf
         simp only [hl, Bool.not_eq_true', Bool.not_eq_false] at hp
         have hmem := lookup_mem _ _ _ hl
         have hclosed := walk_notRevoked_none_closed c order hacc (loc, e) (hcover _ hmem)
-        obtain ⟨hok, hsome⟩ := hinv.1 (loc, e) hmem
-        have hd := hsome hp
+        have hok := (hinv.1 (loc, e) hmem).store.accepted
+        have hd := (hinv.1 (loc, e) hmem).loadedDoc hp
         cases hdoc : e.store.doc with
         | none => simp [hdoc] at hd
         | some d => exact ⟨e, d, rfl, hp, hclosed, hdoc, hok d hdoc⟩
@@ -87,5 +89,18 @@ theorem failed_load_stays_unloaded (s : State) (loc : Loc) (e : Entry) (cands : 
 example : isRevoked (run { strict := true } [.serve 1 .garbage, .handshake ⟨7, 10, some 1⟩ [1]])
     (run { strict := true } [.serve 1 .garbage, .handshake ⟨7, 10, some 1⟩ [1]]).entries ⟨7, 10, some 1⟩ = .error := by decide
 example : isRevoked (run { strict := false } [.markUnsupported 4]) [] ⟨7, 10, some 4⟩ = .notRevoked := by decide
+-- strict, restart with another signature mode: a list taken in under `none` (unknown signer 9) is not loaded after the restart
+-- under `verify`; the certificate naming this distribution point is denied, before the restart it was accepted.
+def strictRestart : List Op :=
+  [.serve 1 (.doc ⟨7, [13], 9, 1⟩), .handshake ⟨7, 10, some 1⟩ [1], .reconfigure .verify, .handshake ⟨7, 10, some 1⟩ [1]]
+example : isRevoked (run { strict := true, sigMode := .none } (strictRestart.take 2))
+    (run { strict := true, sigMode := .none } (strictRestart.take 2)).entries ⟨7, 10, some 1⟩ = .notRevoked := by decide
+example : isRevoked (run { strict := true, sigMode := .none } strictRestart)
+    (run { strict := true, sigMode := .none } strictRestart).entries ⟨7, 10, some 1⟩ = .error := by decide
+
+/-- The hand-written `Repo` model this property rests on was transcribed from exactly these sources: the fingerprints are
+recomputed from /repo on every run (tools/extract/skeleton.go), so any change to one of the functions breaks this obligation. -/
+theorem repo_sources_as_transcribed : Crv.Generated.skeletonRepo = Crv.Skeleton.expectedRepo :=
+  Crv.Skeleton.repo_sources_as_transcribed
 
 end Crv.Props.C10
